@@ -226,9 +226,9 @@ def standin_unit(tier: str, seed: int):
     def harness(I: Interp) -> None:
         r = standin(tier, seed)
         I.ghost["standin"] = r
-        I.prove(f"B-randomize-structure-and-cross-process-identity"
-                f"({r['evaluations']}-models-bounded-standin)", z3.BoolVal(r["n_bad"] == 0),
-                "; ".join(r["violations"][:2]))
+        I.prove("B-randomize-structure-and-cross-process-identity(bounded-standin)",
+                z3.BoolVal(r["n_bad"] == 0),
+                "; ".join(r["violations"][:2]) or f"{r['evaluations']} models")
     return harness
 
 
